@@ -1,7 +1,7 @@
 """C02 - the forwarded HTTP request is semantically identical to the client's.
 
 Harness K with a reactive origin.  The examined request is at position 1..3 of its connection (earlier ones
-are simple keep-alive GETs); any token method except CONNECT, absolute-form target, HTTP/1.0|1.1, header set with
+are keep-alive requests of a drawn kind: GET, chunked POST, Content-Length PUT, empty POST); any token method except CONNECT, absolute-form target, HTTP/1.0|1.1, header set with
 case-insensitively unique names in arbitrary casing and value spacing (incl. Proxy-Connection,
 Proxy-Authorization, operator-disabled headers, optionally a client Via), body by Content-Length or chunked
 (any layout, empty chunked body), arbitrary segmentation.
@@ -25,7 +25,7 @@ LEVEL = 'exploration'
 RULE = ('Hypothesis draws the request (method, absolute target incl. empty path / query-only, version, 0..8 headers with '
         'random casing/spacing, optional Proxy-Connection / Proxy-Authorization / disabled headers / client Via, body framing '
         'none | Content-Length | chunked with arbitrary layout incl. empty), its segmentation (none, every byte, structural '
-        'k-cuts), its position 1..3 on the connection, proxy flag --disable-headers, and the schedule. '
+        'k-cuts), its position 1..3 on the connection and the kinds of the requests before it, proxy flag --disable-headers, and the schedule. '
         'Non-trivial: request has a body or >= 3 headers AND (arrived in >= 2 segments OR position >= 2); distinct by case hash.')
 ASSUMPTIONS = ['h11 as the independent parser of what the origin receives', 'AF_UNIX pairs stand in for TCP']
 
@@ -34,12 +34,21 @@ _FLAGS: Dict[Any, Any] = {}
 
 
 def flags_for(disable: bool) -> Any:
-    if disable not in _FLAGS:
-        argv = ['--threadless']
-        if disable:
-            argv += ['--disable-headers', ','.join(d.decode() for d in DISABLED)]
-        _FLAGS[disable] = K.make_flags(argv)
-    return _FLAGS[disable]
+    # fresh flags for every case: what one request does to process-wide configuration (e.g. the operator's
+    # disabled-header list) must show in the case that did it, so that its replay file reproduces it
+    argv = ['--threadless']
+    if disable:
+        argv += ['--disable-headers', ','.join(d.decode() for d in DISABLED)]
+    return K.make_flags(argv)
+
+
+WARM = {
+    'get': lambda i: b'GET http://example.test/warm%d HTTP/1.1\r\nHost: example.test\r\n\r\n' % i,
+    'chunked': lambda i: (b'POST http://example.test/warm%d HTTP/1.1\r\nHost: example.test\r\nTransfer-Encoding: chunked\r\n\r\n'
+                          b'3\r\nabc\r\n0\r\n\r\n') % i,
+    'cl': lambda i: b'PUT http://example.test/warm%d HTTP/1.1\r\nHost: example.test\r\ncontent-length: 4\r\n\r\nwxyz' % i,
+    'cl0': lambda i: b'POST http://example.test/warm%d HTTP/1.1\r\nHost: example.test\r\nContent-Length: 0\r\n\r\n' % i,
+}
 
 
 def origin_form(target: bytes) -> bytes:
@@ -60,8 +69,9 @@ def run_case(c: Dict[str, Any]) -> Dict[str, Any]:
     flags = flags_for(c.get('disable', False))
     w = K.World(flags, max_iters=20000)
     reqs: List[Tuple[bytes, List[int]]] = []
+    warm = c.get('warm') or ['get'] * (c['position'] - 1)
     for i in range(c['position'] - 1):
-        reqs.append((b'GET http://example.test/warm%d HTTP/1.1\r\nHost: example.test\r\n\r\n' % i, []))
+        reqs.append((WARM[warm[i]](i), []))
     reqs.append((raw, c['cuts']))
     client = ReactiveClient('client', reqs)
     w.add_client(client)
@@ -121,9 +131,16 @@ def evaluate(c: Dict[str, Any]) -> Tuple[List[Any], Dict[str, Any]]:
                         {'len': len(req['body']), 'head': req['body'][:40]}))
         # headers
         removed = {b'proxy-authorization', b'proxy-connection'} | (set(DISABLED) if c.get('disable') else set())
-        framing = {b'content-length', b'transfer-encoding'}
-        want = sorted((h[0], h[1]) for h in hs_client if h[0].lower() not in removed | framing | {b'via'})
-        got = sorted((k_, v) for k_, v in raw_hs if k_.lower() not in framing | {b'via'})
+        # Transfer-Encoding may be re-derived by the proxy (the decoded body is what is compared); a Content-Length the
+        # client sent is a header field like any other: name and value intact (the proxy does not touch the body here)
+        framing = {b'transfer-encoding'} if req['framing'] == 'cl' else {b'content-length', b'transfer-encoding'}
+        def norm(name: bytes, value: bytes) -> Tuple[bytes, bytes]:
+            # Content-Length is a number: 007 and 7 are the same field value
+            if name.lower() == b'content-length' and value.strip().isdigit():
+                return name, b'%d' % int(value)
+            return name, value
+        want = sorted(norm(h[0], h[1]) for h in hs_client if h[0].lower() not in removed | framing | {b'via'})
+        got = sorted(norm(k_, v) for k_, v in raw_hs if k_.lower() not in framing | {b'via'})
         if got != want:
             missing = [x for x in want if x not in got]
             extra = [x for x in got if x not in want]
@@ -184,7 +201,9 @@ def cases(draw: Any) -> Dict[str, Any]:
             seen.add(e[0].lower())
     req['fh_pos'] = draw(st.integers(0, len(req['headers'])))
     raw = G.render(req)
-    c = {'req': req, 'disable': disable, 'position': draw(st.sampled_from([1, 1, 2, 3])),
+    position = draw(st.sampled_from([1, 1, 2, 3]))
+    c = {'req': req, 'disable': disable, 'position': position,
+         'warm': [draw(st.sampled_from(['get', 'chunked', 'cl', 'cl0'])) for _ in range(position - 1)],
          'cuts': draw(G.cut_set(len(raw), raw)), 'schedule': draw(st.lists(st.integers(0, 2), max_size=30))}
     return c
 
@@ -200,6 +219,9 @@ def run_shard(spec: Dict[str, Any], seed: int, acc: Any) -> None:
         req = c['req']
         labs = ['framing:' + req['framing'], 'position:%d' % c['position'], 'version:' + req['version'].decode(),
                 'segments:' + ('1' if info['segments'] == 1 else '2-8' if info['segments'] <= 8 else '>8')]
+        labs += ['after:' + k_ for k_ in sorted(set(c.get('warm') or []))]
+        if not req['body'] and req['framing'] == 'cl':
+            labs.append('content-length-0')
         if not req['body'] and req['framing'] == 'chunked':
             labs.append('empty-chunked-body')
         if any(h[0].lower() == b'via' for h in req['headers']):
